@@ -50,3 +50,40 @@ func mergeHeaders(into, from http.Header) {
 		into[k] = append(into[k], vals...)
 	}
 }
+
+// exchangeHeaders are the headers that describe one HTTP exchange or carry
+// the protocols' own bookkeeping. The metadata of an error that was received
+// from another server (a handler that returns what a client call returned)
+// holds that exchange's copies of them; they must not be copied into the
+// response that reports the error.
+var exchangeHeaders = map[string]struct{}{ //nolint:gochecknoglobals
+	"Content-Type":             {},
+	"Content-Length":           {},
+	"Content-Encoding":         {},
+	"Transfer-Encoding":        {},
+	"Accept-Encoding":          {},
+	"Host":                     {},
+	"User-Agent":               {},
+	"Trailer":                  {},
+	"Date":                     {},
+	"Connect-Content-Encoding": {},
+	"Connect-Accept-Encoding":  {},
+	"Connect-Timeout-Ms":       {},
+	"Grpc-Encoding":            {},
+	"Grpc-Accept-Encoding":     {},
+	"Grpc-Timeout":             {},
+	"Grpc-Status":              {},
+	"Grpc-Message":             {},
+	"Grpc-Status-Details-Bin":  {},
+}
+
+// mergeMetadata is mergeHeaders for error metadata that goes into a response:
+// it leaves out the headers of another exchange.
+func mergeMetadata(into, from http.Header) {
+	for k, vals := range from {
+		if _, skip := exchangeHeaders[http.CanonicalHeaderKey(k)]; skip {
+			continue
+		}
+		into[k] = append(into[k], vals...)
+	}
+}
